@@ -163,7 +163,10 @@ impl LuaModuleIndex {
 
         let node = self.module_nodes.get_mut(&parent_node_id)?;
 
-        node.file_ids.push(file_id);
+        // keep same-name candidates in file-id order, so that the choice among them does not
+        // depend on which file was (re)analysed last
+        let pos = node.file_ids.partition_point(|id| *id < file_id);
+        node.file_ids.insert(pos, file_id);
         let module_name = {
             let name = module_parts.last()?;
             name.to_string()
@@ -183,10 +186,9 @@ impl LuaModuleIndex {
 
         self.file_module_map.insert(file_id, module_info);
         if self.fuzzy_search {
-            self.module_name_to_file_ids
-                .entry(module_name)
-                .or_default()
-                .push(file_id);
+            let file_ids = self.module_name_to_file_ids.entry(module_name).or_default();
+            let pos = file_ids.partition_point(|id| *id < file_id);
+            file_ids.insert(pos, file_id);
         }
 
         Some(())
